@@ -6,8 +6,13 @@ Correspondence, both directions, whole files:
        every extra-byte element) were assigned through its public API -> the extracted specification decoder, told nothing but the
        bytes, must return those values (header at the specification's offsets, VLR chain, 192-byte descriptors, records cut out at
        offset_to_point_data);
-  (ii) the extracted specification encoder builds header, VLRs, descriptors and records -> laspy.read must present those values.
-Search: the same two checks with a second, pure-Python transcription of the tables (struct / int.from_bytes) instead of the
+  (ii) the extracted specification encoder builds header, VLRs, descriptors and records -> laspy.read must present those values,
+       must hold the file's records byte for byte, and the file laspy writes from what it read must decode to the same values;
+  (iii) which records a file has (format, Extra Bytes VLR or none, record length of the header in every relation to the two):
+       the model of LasHeader.read_from (translated block resolve_record) against laspy, errors included.
+In (i) the file is written in every way laspy offers: LasData.write, LasWriter in chunks, laspy.convert from another
+(version, format) then write, write + appender. In (ii) records may carry undocumented bytes beyond what the VLR describes.
+Search: the same checks with a second, pure-Python transcription of the tables (struct / int.from_bytes) instead of the
 model, so that a failing input is found without the model."""
 import io
 import uuid as uuidmod
@@ -21,8 +26,12 @@ DRIVER = "c02"
 ASSUMPTIONS = [
     "Spec/Asprs.v and Spec/AsprsPoints.v transcribe the ASPRS LAS 1.4 R15 tables correctly (review item; a second, independent "
     "transcription in harness/props/c02.py is checked against it on every run)",
-    "uncompressed files, versions 1.1-1.4, ASCII strings; legacy 32-bit counts of a 1.4 header are written as zero by laspy "
-    "(its documented choice) and ignored when reading",
+    "uncompressed files, versions 1.1-1.4, ASCII strings; the legacy 32-bit counts of a 1.4 header are ignored by laspy when reading "
+    "(the 64-bit counts are authoritative); in a file laspy writes they must obey the specification's rule (zero, or the count for "
+    "point formats 0-5 when it fits 32 bits)",
+    "a header whose scale factors / offsets are NaN or infinite is presented bit for bit, but laspy is not asked to write it back",
+    "conversions (laspy.convert) are used as one more way to produce a file: only dimensions the source format has with the same type are "
+    "assigned before the conversion (value-changing conversions are C12's)",
     "no_data / min / max of an extra-bytes descriptor are not reachable through ExtraBytesParams: only checked not to disturb",
     "scaled extra dimensions are assigned through the scaled view with binary scales, so that the stored integer is exact (rounding is C11/C12)",
 ]
@@ -50,12 +59,16 @@ PY_SIZES = [20, 28, 26, 34, 57, 63, 30, 36, 38, 59, 67]
 EB_BASE = ["u1", "i1", "u2", "i2", "u4", "i4", "u8", "i8", "f4", "f8"]
 HS = {1: 227, 2: 227, 3: 235, 4: 375}
 EB_USER_ID, EB_RECORD_ID = b"LASF_Spec", 4
+TRAIL = -1          # pseudo data_type of the last entry of an extra-bytes list: (TRAIL, k) = k bytes per record that no descriptor describes
+TRAIL_NAME = "ExtraBytes"
 
 
 def eb_elem(dt, opt):
     """(element kind, count) of one extra-bytes descriptor; None if the type is unknown"""
     if dt == 0:
         return ("u1", opt) if 0 <= opt < 256 else None
+    if dt == TRAIL:
+        return ("u1", opt) if 0 <= opt else None      # not a descriptor: undocumented bytes that trail every record
     if 1 <= dt <= 30:
         return (EB_BASE[(dt - 1) % 10], (dt - 1) // 10 + 1)
     return None
@@ -72,9 +85,9 @@ def py_items(fmt, ebs):
     items = list(PY_FORMATS[fmt])
     for i, (dt, opt) in enumerate(ebs):
         e = eb_elem(dt, opt)
-        if e is None:
+        if e is None or (dt == TRAIL and i != len(ebs) - 1):
             return None
-        items += [(f"e{i}", e[0])] * e[1]
+        items += [(TRAIL_NAME if dt == TRAIL else f"e{i}", e[0])] * e[1]
     return items
 
 
@@ -218,6 +231,10 @@ class PyRef:
             return py_dec_fields(PY_EBD, r[1])
         if op == "enc_ebd":
             return py_enc_fields(PY_EBD, r[1])
+        if op == "legacy_ok":
+            # LAS 1.4: a legacy count is the count (format < 6, fits 32 bits, legacy compatibility kept) or must be zero
+            fmt, count, legacy = r[1], r[2], r[3]
+            return legacy == 0 or (fmt < 6 and legacy == count and count < 2 ** 32)
         if op == "dec_vlrs":
             ext, n, data = r[1], r[2], r[3]
             hl, out, pos = (60 if ext else 54), [], 0
@@ -290,6 +307,8 @@ class ModelRef:
                 lines.append(f"dec_ebd {common.hexb(r[1])}")
             elif op == "enc_ebd":
                 lines.append(f"enc_ebd {'|'.join(_vtok(v) for v in r[1])}")
+            elif op == "legacy_ok":
+                lines.append(f"legacy_ok {r[1]} {r[2]} {r[3]}")
             elif op == "dec_vlrs":
                 lines.append(f"dec_vlrs {'T' if r[1] else 'F'} {r[2]} {common.hexb(r[3])}")
             elif op in ("names", "psize"):
@@ -311,6 +330,8 @@ class ModelRef:
             return ("err", o)
         if op in ("hdr_names", "vlr_names", "ebd_names"):
             return o.split("|")
+        if op == "legacy_ok":
+            return o == "T"
         if op in ("dec_hdr", "dec_ebd"):
             tok, rest = o.rsplit(" ", 1)
             return (_pairs(tok), int(rest))
@@ -415,6 +436,12 @@ def eb_pairs(extra_dims):
     return [(d["data_type"], d["nbytes"] if d["data_type"] == 0 else 0) for d in extra_dims]
 
 
+def case_ebs(case):
+    """the extra bytes of a case's records: the described ones, then the undocumented trailing bytes (spec-writes direction only)"""
+    t = case.get("trailing", 0)
+    return eb_pairs(case["extra_dims"]) + ([(TRAIL, t)] if t else [])
+
+
 def rand_vlrs(rng, k, big=False):
     out = []
     for _ in range(k):
@@ -427,10 +454,23 @@ def rand_vlrs(rng, k, big=False):
     return out
 
 
-def make_case(rng, version, fmt, n, n_eb, laspy_side, idx):
+PATHS = ["write", "writer", "convert", "append"]
+
+
+def make_case(rng, version, fmt, n, n_eb, laspy_side, idx, trailing=0, path="write", force_scaled=False):
     minor = int(version[2])
     extra = rand_extra_dims(rng, n_eb, laspy_side)
-    ebs = eb_pairs(extra)
+    if force_scaled and extra:
+        # the first extra dimension is an integer one with scales and offsets
+        d = extra[0]
+        if d["data_type"] == 0 or eb_elem(d["data_type"], 0)[0][0] == "f":
+            d["data_type"] = rng.choice([1, 2, 3, 4, 5, 6, 7, 8, 13, 14, 15, 16, 23, 26])
+            d["nbytes"] = 0
+        cnt = eb_elem(d["data_type"], 0)[1]
+        d.update(scaled=3 if laspy_side else rng.choice([1, 2, 3]), flags=0, junk="",
+                 scales=[lasio.f64bits(rng.choice(EXACT_SCALES)) for _ in range(cnt)],
+                 offsets=[lasio.f64bits(rng.choice(EXACT_OFFSETS)) for _ in range(cnt)])
+    ebs = eb_pairs(extra) + ([(TRAIL, trailing)] if trailing else [])
     leaves = py_leaves(fmt, ebs)
     cols = []
     eb_of_leaf = {}
@@ -448,7 +488,7 @@ def make_case(rng, version, fmt, n, n_eb, laspy_side, idx):
     y = rng.choice([1, 4, 1900, 2000, 2020, 2024, 9999, rng.randrange(1, 10000)])
     leap = y % 4 == 0 and (y % 100 != 0 or y % 400 == 0)
     yday = rng.choice([1, 59, 60, 365, 366 if leap else 365, rng.randrange(1, 366)])
-    if laspy_side:
+    if laspy_side or trailing or rng.random() < 0.5:
         scales = [lasio.f64bits(rng.choice([1e-9, 0.001, 0.01, 0.5, 1.0, 1000.0, rng.uniform(1e-6, 10)])) for _ in range(3)]
         offsets = [lasio.f64bits(rng.choice([0.0, -1e9, 1e9, 123456.789, rng.uniform(-1e6, 1e6)])) for _ in range(3)]
     else:
@@ -478,6 +518,15 @@ def make_case(rng, version, fmt, n, n_eb, laspy_side, idx):
             "vlrs": rand_vlrs(rng, rng.choice([0, 0, 1, 2, 4])),
             "evlrs": rand_vlrs(rng, rng.choice([0, 1, 2]), big=rng.random() < 0.2) if minor >= 4 and rng.random() < 0.6 else [],
             "points": points}
+    if trailing:
+        case["trailing"] = trailing
+    if laspy_side:
+        # how the file gets written: LasData.write | LasWriter in chunks | laspy.convert from another (version, format), then
+        # write | LasData.write of the first points, the rest through the appender
+        if path == "convert":
+            sv, sf = rng.choice([(v, f) for v in lasio.VERSIONS for f in lasio.COMPAT[v]])
+            path = f"convert:{sv}:{sf}"
+        case["path"] = path
     return case
 
 
@@ -516,9 +565,34 @@ def make_cases(ctx, laspy_side):
                 else:
                     p.append(leaf_values(rng, kd, 1, rng.randrange(64))[0])
         cases.append(c2)
+        if not laspy_side and rng.random() < 0.3:
+            k = rng.choice([1, 2, 5])
+            c2["trailing"] = k
+            for p in c2["points"]:
+                p += leaf_values(rng, "u1", k, rng.randrange(64))
+    if laspy_side:
+        # every way of writing: each (version, format) once more through the chunked writer / a conversion / the appender,
+        # and every format as the target of a conversion that carries scaled extra dimensions
+        for j, (v, f) in enumerate(pairs):
+            cases.append(make_case(rng, v, f, rng.choice([0, 1, 2, 7, 12]), rng.choice([0, 0, 1, 2]), True, idx,
+                                   path=PATHS[1 + (j + ctx.seed) % 3])); idx += 1
+        for f in range(11):
+            v = rng.choice([v for v in lasio.VERSIONS if f in lasio.COMPAT[v]])
+            cases.append(make_case(rng, v, f, rng.choice([1, 3, 9]), rng.choice([1, 2, 3]), True, idx, path="convert", force_scaled=True)); idx += 1
+    else:
+        # records longer than format + described bytes: undocumented trailing bytes, with and without an Extra Bytes VLR,
+        # every format, at least two points (a wrong record length shows from the second record on)
+        for f in range(11):
+            v = rng.choice([v for v in lasio.VERSIONS if f in lasio.COMPAT[v]])
+            cases.append(make_case(rng, v, f, rng.choice([2, 3, 9]), rng.choice([1, 1, 2, 3]), False, idx,
+                                   trailing=rng.choice([1, 2, 4, 7, 300]))); idx += 1
+            v = rng.choice([v for v in lasio.VERSIONS if f in lasio.COMPAT[v]])
+            cases.append(make_case(rng, v, f, rng.choice([2, 5]), 0, False, idx, trailing=rng.choice([1, 3, 8, 255, 256, 1000]))); idx += 1
     for _ in range(ctx.n(25, 600)):         # random mixtures
         v, f = rng.choice(pairs)
-        cases.append(make_case(rng, v, f, rng.choice([0, 1, 2, 3, 17, 50]), rng.choice([0, 0, 1, 2, 4]), laspy_side, idx)); idx += 1
+        cases.append(make_case(rng, v, f, rng.choice([0, 1, 2, 3, 17, 50]), rng.choice([0, 0, 1, 2, 4]), laspy_side, idx,
+                               trailing=0 if laspy_side else rng.choice([0, 0, 0, 1, 6]),
+                               path=rng.choice(PATHS), force_scaled=rng.random() < 0.3)); idx += 1
     return cases
 
 
@@ -548,12 +622,20 @@ def case_date(hdr):
     return date(y, 1, 1) + timedelta(d - 1)
 
 
+def _vlr_objs(lst):
+    import laspy
+    return [laspy.VLR(user_id=u, record_id=r, description=ds, record_data=bytes.fromhex(p)) for u, r, ds, p in lst]
+
+
 def laspy_write(case):
-    """build the file through laspy's API; returns (bytes, what laspy computed itself: mins / maxs / by_return)"""
+    """build the file through laspy's API, written the way case['path'] says; returns (bytes, what laspy computed itself:
+    mins / maxs / by_return)"""
     import laspy
     from laspy.vlrs.vlrlist import VLRList
     hd = case["header"]
-    h = laspy.LasHeader(version=case["version"], point_format=case["format"])
+    path = case.get("path", "write").split(":")
+    version, fmt = (path[1], int(path[2])) if path[0] == "convert" else (case["version"], case["format"])
+    h = laspy.LasHeader(version=version, point_format=fmt)
     h.file_source_id = hd["file_source_id"]
     h.global_encoding.value = hd["global_encoding"]
     h.uuid = uuidmod.UUID(bytes_le=bytes.fromhex(hd["uuid"]))
@@ -562,8 +644,6 @@ def laspy_write(case):
     h.creation_date = case_date(hd)
     h.scales = np.array([lasio.bits_f64(b) for b in hd["scales"]])
     h.offsets = np.array([lasio.bits_f64(b) for b in hd["offsets"]])
-    if int(case["version"][2]) >= 3:
-        h.start_of_waveform_data_packet_record = hd["start_of_waveform"]
     h.extra_header_bytes = bytes.fromhex(hd["extra_header_bytes"])
     h.extra_vlr_bytes = bytes.fromhex(hd["extra_vlr_bytes"])
     for d in case["extra_dims"]:
@@ -571,18 +651,20 @@ def laspy_write(case):
         if d["scaled"]:
             kw = dict(scales=np.array([lasio.bits_f64(b) for b in d["scales"]]), offsets=np.array([lasio.bits_f64(b) for b in d["offsets"]]))
         h.add_extra_dim(laspy.ExtraBytesParams(d["name"], type_str(d["data_type"], d["nbytes"]), description=d["description"], **kw))
-    for u, r, ds, p in case["vlrs"]:
-        h.vlrs.append(laspy.VLR(user_id=u, record_id=r, description=ds, record_data=bytes.fromhex(p)))
+    for v in _vlr_objs(case["vlrs"]):
+        h.vlrs.append(v)
     las = laspy.LasData(h)
     n = case["n"]
     las.points = laspy.ScaleAwarePointRecord.zeros(n, header=h)
-    ebs = eb_pairs(case["extra_dims"])
+    ebs = case_ebs(case)
     leaves = py_leaves(case["format"], ebs)
     cols = {}
     for j, (name, kind) in enumerate(leaves):
         cols.setdefault(name, []).append((kind, [p[j] for p in case["points"]]))
-    if n:
-        for name, parts in cols.items():
+
+    def assign(las, names):
+        for name in names:
+            parts = cols[name]
             if name.startswith("e") and name[1:].isdigit():
                 d = case["extra_dims"][int(name[1:])]
                 arrs = [np_column(k, v) for k, v in parts]
@@ -592,17 +674,49 @@ def laspy_write(case):
                 las[d["name"]] = arrs[0] if len(arrs) == 1 and eb_elem(*ebs[int(name[1:])])[1] == 1 else np.stack(arrs, axis=1)
             else:
                 las[name] = np_column(*parts[0])
-    if case["evlrs"]:
-        las.evlrs = VLRList([laspy.VLR(user_id=u, record_id=r, description=ds, record_data=bytes.fromhex(p)) for u, r, ds, p in case["evlrs"]])
+    if path[0] == "convert":
+        # assigned before the conversion: the extra dimensions and every dimension the source format has with the same type;
+        # after it: the dimensions only the target format has
+        src = dict(py_leaves(fmt, []))
+        before = [nm for nm in cols if (nm.startswith("e") and nm[1:].isdigit()) or src.get(nm) == cols[nm][0][0]]
+        if n:
+            assign(las, before)
+        las = laspy.convert(las, point_format_id=case["format"], file_version=case["version"])
+        if n:
+            assign(las, [nm for nm in cols if nm not in before])
+    elif n:
+        assign(las, list(cols))
+    evlrs = VLRList(_vlr_objs(case["evlrs"])) if case["evlrs"] else None
+    if evlrs is not None:
+        las.evlrs = evlrs
     # statistics are laspy's own computation (C03); update_header() also clears the waveform pointer of a 1.4 header, so the
     # attribute is assigned again afterwards: what is written is what the header holds at write time
     las.update_header()
     if int(case["version"][2]) >= 3:
         las.header.start_of_waveform_data_packet_record = hd["start_of_waveform"]
     bio = io.BytesIO()
-    las.write(bio)
-    own = {"maxs": [lasio.f64bits(x) for x in las.header.maxs], "mins": [lasio.f64bits(x) for x in las.header.mins],
-           "by_return": [int(x) for x in las.header.number_of_points_by_return]}
+    hh = las.header
+    if path[0] == "writer":
+        with laspy.open(bio, mode="w", header=las.header, closefd=False) as w:
+            for a, b in ((0, n // 3), (n // 3, n)):
+                w.write_points(las.points[a:b])
+            if evlrs is not None:
+                w.write_evlrs(evlrs)
+            hh = w.header
+    elif path[0] == "append":
+        k = n // 2
+        first = laspy.LasData(las.header, las.points[:k])
+        if evlrs is not None:
+            first.evlrs = evlrs
+        first.write(bio)
+        bio.seek(0)
+        with laspy.open(bio, mode="a", closefd=False) as ap:
+            ap.append_points(las.points[k:])
+            hh = ap.header
+    else:
+        las.write(bio)
+    own = {"maxs": [lasio.f64bits(x) for x in hh.maxs], "mins": [lasio.f64bits(x) for x in hh.mins],
+           "by_return": [int(x) for x in hh.number_of_points_by_return]}
     return bio.getvalue(), own
 
 
@@ -635,14 +749,17 @@ def laspy_present(data, case):
         P["extra_dims"].append({"name": d.name, "elem": dt.base.kind + str(dt.base.itemsize), "count": int(d.num_elements), "description": d.description,
                                 "scales": None if d.scales is None else [lasio.f64bits(x) for x in d.scales],
                                 "offsets": None if d.offsets is None else [lasio.f64bits(x) for x in d.offsets]})
-    # points: leaf order of the case; extra dimensions by position
-    ebs = eb_pairs(case["extra_dims"])
+    # the record layout laspy resolved for the file: number of leaves (every sub-field, every element) and record length
+    P["resolved"] = [int(sum(int(d.num_elements) for d in las.point_format.dimensions)), int(las.point_format.size)]
+    P["record_bytes"] = bytes(las.points.memoryview())
+    # points: leaf order of the case; extra dimensions by position (the undocumented trailing bytes come last)
+    ebs = case_ebs(case)
     leaves = py_leaves(case["format"], ebs)
     n = len(las.points)
     cols, scaled_cols, seen = [], {}, {}
     for j, (name, kind) in enumerate(leaves):
-        if name.startswith("e") and name[1:].isdigit():
-            i = int(name[1:])
+        if name == TRAIL_NAME or (name.startswith("e") and name[1:].isdigit()):
+            i = len(case["extra_dims"]) if name == TRAIL_NAME else int(name[1:])
             k = seen.get(name, 0)
             seen[name] = k + 1
             if i >= len(P["extra_dims"]):
@@ -674,6 +791,13 @@ def laspy_present(data, case):
         cols.append([int(x) for x in col])
     P["points"] = [[(c[i] if c is not None else None) for c in cols] for i in range(n)]
     P["scaled"] = scaled_cols
+    # ... and laspy writes what it presents: the file it produces from this LasData is decoded by the reference afterwards
+    try:
+        bio = io.BytesIO()
+        las.write(bio)
+        P["rewritten"] = bio.getvalue()
+    except Exception as ex:
+        P["rewritten"] = {"error": f"{common.exc_kind(ex)}: {str(ex)[:200]}"}
     return P
 
 
@@ -737,10 +861,28 @@ def spec_decode_files(ref, files):
         else:
             E.setdefault(i, []).append(dict(o[0]))
     live = [i for i in live if "error" not in res[i]]
+    # record length the descriptors account for; the header's record length delimits the records: what is beyond is undocumented
+    EBS = {i: [(e["data_type"], e["options"] if e["data_type"] == 0 else 0) for e in E.get(i, [])] for i in live}
+    described = dict(zip(live, ref.batch([("psize", H[i][0]["point_format_id"], EBS[i]) for i in live])))
+    # legacy counts of a 1.4 header against the counts of the same header
+    lreqs, lidx = [], []
+    for i in live:
+        d, legacy = H[i]
+        for k, v in legacy.items():
+            lreqs.append(("legacy_ok", d["point_format_id"], d[k], v))
+            lidx.append((i, k, v, d[k]))
+    LEG = {}
+    for (i, k, v, cnt), ok in zip(lidx, ref.batch(lreqs)):
+        if ok is not True:
+            LEG.setdefault(i, []).append((k, v, cnt))
     reqs, idx = [], []
     for i in live:
         d = H[i][0]
-        ebs = [(e["data_type"], e["options"] if e["data_type"] == 0 else 0) for e in E.get(i, [])]
+        ebs = list(EBS[i])
+        ps = described[i]
+        trail = d["point_size"] - ps if not is_err(ps) and d["point_size"] > ps else 0
+        if trail:
+            ebs.append((TRAIL, trail))
         data = files[i][d["offset_to_point_data"]:d["offset_to_point_data"] + d["point_count"] * d["point_size"]]
         reqs += [("psize", d["point_format_id"], ebs), ("dec", d["point_format_id"], ebs, data)]
         if isinstance(ref, ModelRef):
@@ -768,7 +910,10 @@ def spec_decode_files(ref, files):
             "offset_to_point_data": d["offset_to_point_data"], "header_size": d["header_size"], "signature": d["signature"].hex(),
             "number_of_vlrs": d["number_of_vlrs"],
             "number_of_evlrs": d.get("number_of_evlrs", 0), "start_of_first_evlr": d.get("start_of_first_evlr", 0),
-            "legacy": {k: v for k, v in legacy.items()}}
+            "legacy": {k: v for k, v in legacy.items()},
+            "file_len": len(files[i]),
+            "expected_len": (d["start_of_first_evlr"] + V[(i, True)][1]) if (i, True) in V
+            else d["offset_to_point_data"] + d["point_count"] * d["point_size"]}
         conv = lambda lst: [[x["user_id"].decode("latin1"), x["record_id"], x["description"].decode("latin1"), p.hex()] for x, p in lst]
         allv = V[(i, False)][0]
         R["vlrs"] = conv([(x, p) for x, p in allv if not (x["user_id"] == EB_USER_ID and x["record_id"] == EB_RECORD_ID)])
@@ -776,7 +921,10 @@ def spec_decode_files(ref, files):
         R["evlrs"] = conv(V[(i, True)][0]) if (i, True) in V else []
         R["descriptors"] = E.get(i, [])
         R["ebs"] = ebs
-        R["spec_point_size"] = ps
+        R["spec_point_size"] = described[i]     # format + described extra bytes
+        R["trailing"] = ebs[-1][1] if ebs and ebs[-1][0] == TRAIL else 0
+        R["record_size"] = ps
+        R["legacy_bad"] = LEG.get(i, [])
         R["data_len"] = dl
         R["points"] = pts
         if step == 3 and outs[3 * k + 2] != pts:
@@ -807,7 +955,7 @@ def spec_encode_files(ref, cases):
     hdr_names = {m: names[2 + m] for m in (1, 2, 3, 4)}
     reqs, plan = [], []
     for c in cases:
-        ebs = eb_pairs(c["extra_dims"])
+        ebs = case_ebs(c)
         start = len(reqs)
         reqs.append(("psize", c["format"], ebs))
         reqs.append(("enc", c["format"], ebs, c["points"]))
@@ -900,7 +1048,7 @@ def compare_laspy_writes(case, own, R):
         exp = case["version"] if k == "version" else hd[k]
         if rh[k] != exp:
             out.append((f"header {k}", f"assigned {exp!r}, decoder read {rh[k]!r}"))
-    ebs = eb_pairs(case["extra_dims"])
+    ebs = case_ebs(case)
     psize = py_size(case["format"], ebs)
     nv = len(case["vlrs"]) + (1 if case["extra_dims"] else 0)
     vbytes = sum(54 + len(p) // 2 for _, _, _, p in case["vlrs"]) + ((54 + 192 * len(ebs)) if ebs else 0)
@@ -918,6 +1066,11 @@ def compare_laspy_writes(case, own, R):
             out.append((f"header {k}", f"expected {e!r}, decoder read {rh[k]!r}"))
     if R["spec_point_size"] != rh["point_size"]:
         out.append(("header point_size", f"record length in the header {rh['point_size']}, specification {R['spec_point_size']} for format {rh['format']} + extra bytes {R['ebs']}"))
+    for k, v, cnt in R["legacy_bad"]:
+        out.append((f"header legacy {k.split('[')[0]}", f"LAS 1.4 header, point format {rh['format']}: legacy field {k} = {v} while the file's {k} = {cnt}: "
+                    + ("the specification says it must be zero for point formats 6-10" if rh["format"] >= 6 else "must be zero or the count (when it fits 32 bits)")))
+    if rh["file_len"] != rh["expected_len"]:
+        out.append(("file length", f"file of {rh['file_len']} bytes; header + VLRs + {rh['point_count']} records of {rh['point_size']} bytes + EVLRs end at {rh['expected_len']}"))
     if any(x != "0000" for x in R["vlr_reserved"]):
         out.append(("vlr reserved", f"{R['vlr_reserved']}"))
     for nm, a, b in (("vlr", case["vlrs"], R["vlrs"]), ("evlr", case["evlrs"], R["evlrs"])):
@@ -964,14 +1117,15 @@ def _eb_of(case, leaf):
     return d["data_type"], d["nbytes"]
 
 
-def compare_spec_writes(case, P):
-    """case: what the reference encoder wrote; P: what laspy presents"""
+def compare_spec_writes(case, P, point_data=None):
+    """case: what the reference encoder wrote; P: what laspy presents; point_data: the bytes of the file's point records"""
     if "error" in P:
         return [("laspy.read", P["error"])]
     out = []
     hd, ph = case["header"], P["header"]
     minor = int(case["version"][2])
-    ebs = eb_pairs(case["extra_dims"])
+    ebs = case_ebs(case)
+    trailing = case.get("trailing", 0)
     for k in HDR_KEYS + ["maxs", "mins"]:
         exp = case["version"] if k == "version" else hd[k]
         if ph[k] != exp:
@@ -989,8 +1143,18 @@ def compare_spec_writes(case, P):
             for f_, xa, ya in zip(("user_id", "record_id", "description", "payload"), x, y):
                 if xa != ya:
                     out.append((f"{nm} {f_}", f"{nm} {j}: written {str(xa)[:70]!r}, laspy presents {str(ya)[:70]!r}"))
-    if len(P["extra_dims"]) != len(case["extra_dims"]):
-        out.append(("extra-bytes descriptor count", f"written {len(case['extra_dims'])}, laspy presents {len(P['extra_dims'])}"))
+    if len(P["extra_dims"]) != len(case["extra_dims"]) + (1 if trailing else 0):
+        out.append(("extra-bytes descriptor count", f"written {len(case['extra_dims'])} descriptors and {trailing} undocumented bytes per record, "
+                    f"laspy presents {len(P['extra_dims'])} extra dimensions: {[(p['name'], p['elem'], p['count']) for p in P['extra_dims']]}"))
+    elif trailing:
+        p = P["extra_dims"][-1]
+        if (p["elem"], p["count"]) != ("u1", trailing):
+            out.append(("undocumented extra bytes", f"{trailing} undocumented bytes per record, laspy presents {p['name']}: {p['count']} x {p['elem']}"))
+    if P["resolved"][1] != psize:
+        out.append(("record length", f"header says {psize}-byte records, laspy's point format is {P['resolved'][1]} bytes long"))
+    if point_data is not None and P["record_bytes"] != point_data:
+        out.append(("record bytes", f"the records laspy holds ({len(P['record_bytes'])} bytes) are not the {len(point_data)} bytes of point data of the file "
+                    f"({case['n']} records of {psize} bytes)"))
     one, zero = lasio.f64bits(1.0), 0
     for j, (d, p) in enumerate(zip(case["extra_dims"], P["extra_dims"])):
         kind, cnt = eb_elem(d["data_type"], d["nbytes"])
@@ -1063,9 +1227,76 @@ def run_laspy_writes(ref, cases):
     return res
 
 
+def _finite(bits):
+    return bits & 0x7FF0000000000000 != 0x7FF0000000000000
+
+
+def compare_rewrite(case, R):
+    """case: what the reference encoder wrote, laspy read and wrote again; R: what the reference decoder reads in laspy's file.
+    Header statistics and dates are laspy's own business on a write (C03 / C07): compared are the record layout, the
+    descriptors, the VLRs and every point value."""
+    if "error" in R:
+        return [("re-written file: structure", R["error"])]
+    out = []
+    ebs = case_ebs(case)
+    rh = R["header"]
+    exp = {"format": case["format"], "point_size": py_size(case["format"], ebs), "point_count": case["n"], "version": case["version"]}
+    for k, e in exp.items():
+        if rh[k] != e:
+            out.append((f"re-written file: header {k}", f"read {e!r}, written back {rh[k]!r}"))
+    if R["trailing"] != case.get("trailing", 0):
+        out.append(("re-written file: undocumented extra bytes", f"read {case.get('trailing', 0)} per record, written back {R['trailing']}"))
+    if rh["file_len"] != rh["expected_len"]:
+        out.append(("re-written file: file length", f"file of {rh['file_len']} bytes; header + VLRs + {rh['point_count']} records of {rh['point_size']} bytes + EVLRs end at {rh['expected_len']}"))
+    for k, v, cnt in R["legacy_bad"]:
+        out.append((f"re-written file: header legacy {k.split('[')[0]}", f"point format {rh['format']}: legacy field {k} = {v}, {k} = {cnt}"))
+    for nm, a, b in (("vlr", case["vlrs"], R["vlrs"]), ("evlr", case["evlrs"], R["evlrs"])):
+        if len(a) != len(b):
+            out.append((f"re-written file: {nm} count", f"read {len(a)}, written back {len(b)}"))
+        for j, (x, y) in enumerate(zip(a, b)):
+            for f_, xa, ya in zip(("user_id", "record_id", "description", "payload"), x, y):
+                if xa != ya:
+                    out.append((f"re-written file: {nm} {f_}", f"{nm} {j}: read {str(xa)[:70]!r}, written back {str(ya)[:70]!r}"))
+    if len(R["descriptors"]) != len(case["extra_dims"]):
+        out.append(("re-written file: extra-bytes descriptor count", f"read {len(case['extra_dims'])}, written back {len(R['descriptors'])}"))
+    for j, (d, r) in enumerate(zip(case["extra_dims"], R["descriptors"])):
+        kind, cnt = eb_elem(d["data_type"], d["nbytes"])
+        sc = d["scaled"] if d["data_type"] != 0 else 0
+        e = {"data_type": d["data_type"], "name": d["name"].encode()}
+        if d["data_type"] == 0:
+            e["options"] = d["nbytes"]
+        for i in range(cnt if sc else 0):
+            if sc & 1:
+                e[f"scale[{i}]"] = d["scales"][i]
+            if sc & 2:
+                e[f"offset[{i}]"] = d["offsets"][i]
+        for k, ev in e.items():
+            if r[k] != ev:
+                out.append((f"re-written file: extra-bytes descriptor {k}", f"dimension {j}: read {ev!r}, written back {r[k]!r}"))
+        if d["data_type"] != 0 and (r["options"] >> 3) & 3 != sc:
+            out.append(("re-written file: extra-bytes descriptor options", f"dimension {j}: scale/offset bits read {sc}, written back options {r['options']}"))
+    if out:
+        return out
+    pts = R["points"]
+    if is_err(pts) or len(pts) != case["n"]:
+        return [("re-written file: point records", f"{case['n']} points read, decoder: {str(pts)[:100]}")]
+    leaves = py_leaves(case["format"], ebs)
+    for i, (a, b) in enumerate(zip(case["points"], pts)):
+        if a != b:
+            for j, (x, y) in enumerate(zip(a, b)):
+                if x != y:
+                    nm = leaves[j][0]
+                    out.append((f"re-written file: point field {nm if not (nm[0] == 'e' and nm[1:].isdigit()) else 'extra:' + type_str(*_eb_of(case, nm))}",
+                                f"point {i} {nm}: file read by laspy had {x}, the file laspy wrote back has {y}", i))
+                    break
+            if len(out) >= 3:
+                break
+    return out
+
+
 def run_spec_writes(ref, cases, files=None):
     files = files if files is not None else spec_encode_files(ref, cases)
-    res = []
+    res, again = [], []
     for c, f in zip(cases, files):
         if isinstance(f, dict):
             res.append([("reference encoder", f["error"])])
@@ -1074,7 +1305,19 @@ def run_spec_writes(ref, cases, files=None):
             P = laspy_present(f, c)
         except Exception as ex:
             P = {"error": f"{common.exc_kind(ex)}: {str(ex)[:200]}"}
-        res.append(compare_spec_writes(c, P))
+        off = int.from_bytes(f[96:100], "little")
+        res.append(compare_spec_writes(c, P, f[off:off + c["n"] * py_size(c["format"], case_ebs(c))]))
+        if "error" not in P and all(_finite(b) for b in c["header"]["scales"] + c["header"]["offsets"]):
+            # (a NaN or infinite scale factor has no meaning: laspy's writer is not asked to reproduce such a header)
+            if isinstance(P["rewritten"], dict):
+                res[-1].append(("re-written file: laspy write", P["rewritten"]["error"]))
+            else:
+                again.append((len(res) - 1, c, P["rewritten"]))
+    # laspy writes what it presents: the files laspy wrote from what it read, through the reference decoder
+    for (k, c, _), R in zip(again, spec_decode_files(ref, [b for _, _, b in again])):
+        res[k] += compare_rewrite(c, R)
+        if R.get("gen_differs"):
+            res[k].append(("gen-layout codec differs from the specification codec", "gdec != dec"))
     return res, files
 
 
@@ -1108,7 +1351,86 @@ def finding(direction, case, mm, ref, tag):
 def sample_of(direction, c):
     return {"direction": direction, "version": c["version"], "format": c["format"], "points": c["n"],
             "extra_dims": [type_str(d["data_type"], d["nbytes"]) + ("*scaled" if d["scaled"] else "") for d in c["extra_dims"]],
-            "vlrs": len(c["vlrs"]), "evlrs": len(c["evlrs"]), "first_point": c["points"][0][:8] if c["points"] else []}
+            "vlrs": len(c["vlrs"]), "evlrs": len(c["evlrs"]), "first_point": c["points"][0][:8] if c["points"] else [],
+            "written_through": c.get("path"), "undocumented_trailing_bytes": c.get("trailing", 0)}
+
+
+# ---------------------------------------------------------------------------------------------------
+# which records a file has: (format, Extra Bytes VLR or none, record length of the header) in every relation to each other,
+# including the files both sides must refuse
+# ---------------------------------------------------------------------------------------------------
+def resolve_inputs(ctx):
+    rng = ctx.rng
+    out = []
+    desc_sets = [[], [3], [5, (0, 3)], [26, 1]]
+    for fmt in [0, 1, 3, 6, 10] + [rng.randrange(11) for _ in range(ctx.n(2, 20))]:
+        version = rng.choice([v for v in lasio.VERSIONS if fmt in lasio.COMPAT[v]])
+        for ds in desc_sets:
+            extra = []
+            for i, dt in enumerate(ds):
+                d = rand_extra_dims(rng, 1, False)[0]
+                d.update(data_type=dt[0] if isinstance(dt, tuple) else dt, nbytes=dt[1] if isinstance(dt, tuple) else 0,
+                         scaled=0, scales=[], offsets=[], flags=0, junk="", name=f"e{i}")
+                extra.append(d)
+            std, full = PY_SIZES[fmt], py_size(fmt, eb_pairs(extra))
+            for hv in ([True, False] if ds else [False, True]):
+                for ps in sorted({std - 1, std, std + 1, full - 1, full, full + 1, full + rng.choice([2, 17, 300])}):
+                    out.append({"direction": "resolve", "version": version, "format": fmt, "extra_dims": extra if hv else [], "has_vlr": hv,
+                                "point_size": ps, "n": rng.choice([0, 2, 3]), "seed": rng.randrange(1 << 30)})
+    return out
+
+
+def resolve_file(inp):
+    """the file of a resolve input, built with the python transcription: header, the Extra Bytes VLR (if any), n records of
+    point_size arbitrary bytes"""
+    import random
+    rng = random.Random(inp["seed"])
+    c = make_case(rng, inp["version"], inp["format"], 0, 0, False, "resolve")
+    c.update(extra_dims=inp["extra_dims"], vlrs=[], evlrs=[])
+    c["header"].update(extra_header_bytes="", extra_vlr_bytes="")
+    if inp["has_vlr"] and not inp["extra_dims"]:
+        # an Extra Bytes VLR without descriptors
+        c["vlrs"] = [["LASF_Spec", 4, "Extra Bytes Record", ""]]
+    f = spec_encode_files(PyRef(), [c])[0]
+    if isinstance(f, dict):
+        raise RuntimeError(f["error"])
+    n, ps = inp["n"], inp["point_size"]
+    f = bytearray(f)
+    f[105:107] = ps.to_bytes(2, "little")
+    f[107:111] = n.to_bytes(4, "little")
+    if inp["version"] == "1.4":
+        f[247:255] = n.to_bytes(8, "little")
+    data = bytes(rng.randrange(256) for _ in range(n * ps))
+    return bytes(f) + data, data
+
+
+def resolve_impl(inp):
+    """what laspy makes of the file: ('ok', leaves, record length, records are the file's bytes) | ('err', kind)"""
+    import laspy
+    f, data = resolve_file(inp)
+    try:
+        las = laspy.read(io.BytesIO(f))
+    except Exception as ex:
+        return ("err", common.exc_kind(ex), str(ex)[:120])
+    pf = las.point_format
+    return ("ok", int(sum(int(d.num_elements) for d in pf.dimensions)), int(pf.size), len(las.points), bytes(las.points.memoryview()) == data)
+
+
+def resolve_oracle(inp):
+    """the property on the implementation: the header's record length delimits the records. A file whose records can hold the
+    format and what the VLR describes must be read, in records of that length, byte for byte; no file may be read with records
+    of another length."""
+    std = PY_SIZES[inp["format"]]
+    d = py_size(inp["format"], eb_pairs(inp["extra_dims"])) - std
+    ps, hv = inp["point_size"], inp["has_vlr"]
+    readable = (ps >= std + d) if (hv and ps != std) else ps >= std
+    r = resolve_impl(inp)
+    if r[0] == "err":
+        return f"laspy refuses the file ({r[1]}: {r[2]}): format {inp['format']} needs {std} bytes, the VLR describes {d}, records are {ps} bytes" if readable else None
+    if r[2] != ps or r[3] != inp["n"] or not r[4]:
+        return (f"header says {inp['n']} records of {ps} bytes (format {inp['format']}: {std}, described by the VLR: {d if hv else 'no VLR'}); "
+                f"laspy reads {r[3]} records of {r[2]} bytes, identical to the file's: {r[4]}")
+    return None
 
 
 _CASES = {}
@@ -1123,7 +1445,10 @@ def cases_for(ctx):
 
 def register(ctx, direction, cases):
     for c in cases:
-        ebs = eb_pairs(c["extra_dims"])
+        ebs = case_ebs(c)
+        if "path" in c:
+            ctx.count(f"written through {c['path'].split(':')[0]}")
+        ctx.count("files with undocumented trailing bytes", 1 if c.get("trailing") else 0)
         ctx.case((direction, c["version"], c["format"], tuple(ebs), repr(c["points"][:3]), c["header"]["uuid"]),
                  nontrivial=c["n"] > 0 or bool(c["vlrs"]) or bool(ebs), sample=sample_of(direction, c))
         ctx.evaluations += c["n"] * len(py_leaves(c["format"], ebs))
@@ -1144,13 +1469,20 @@ def correspond(ctx):
         "float specials by bit pattern (+-0, +-inf, quiet/signalling NaN payloads, subnormal, max finite) and random patterns; header strings of length "
         "0/1/31/32, VLR user ids of length 0..16, payloads 0..300 bytes (EVLR payloads up to 70000), extra header / VLR bytes. "
         "(i) values assigned through LasHeader attributes, ExtraBytesParams, VLR objects and las[dimension] -> extracted specification decoder on the bytes; "
-        "(ii) extracted specification encoder -> laspy.read. non-trivial = at least one point, VLR or extra dimension; distinct by (direction, version, format, "
+        "(ii) extracted specification encoder -> laspy.read, the records laspy holds = the file's bytes, and laspy's re-written file through the decoder again; "
+        "every format with 1-1000 undocumented bytes per record beyond what the Extra Bytes VLR describes (and without VLR), at least two points. "
+        "(i) is written through LasData.write, LasWriter in two chunks, laspy.convert from a random (version, format) (every target format with scaled "
+        "extra dimensions) and write + appender; every (version, format) through one of the last three in turn. The decoder also checks the file against "
+        "itself: legacy counts of a 1.4 header (zero for formats 6-10, zero or the count below), file length = header + VLRs + records + EVLRs. "
+        "(iii) record-length resolution sweep: formats x descriptor sets x VLR present/absent x record length in {std-1, std, std+1, std+described-1, "
+        "std+described, +1, +2..300}: model of read_from vs laspy, refusals included. "
+        "non-trivial = at least one point, VLR or extra dimension; distinct by (direction, version, format, "
         "extra-bytes layout, first points, uuid)")
     W, Rc = cases_for(ctx)
     ref = ModelRef()
     dis = []
     # names of the leaves: the model's labels are laspy's dimension names and agree with the python transcription
-    combos = sorted({(c["format"], tuple(eb_pairs(c["extra_dims"]))) for c in W + Rc})
+    combos = sorted({(c["format"], tuple(case_ebs(c))) for c in W + Rc})
     outs = ref.batch([("names", f, list(e)) for f, e in combos] + [("psize", f, list(e)) for f, e in combos])
     for k, (f, e) in enumerate(combos):
         if outs[k] != [n for n, _ in py_leaves(f, list(e))] or outs[len(combos) + k] != py_size(f, list(e)):
@@ -1176,6 +1508,22 @@ def correspond(ctx):
                 f_ = finding("spec-writes", c, mm, ref, "impl")
                 f_["model"] = "the values given to the specification encoder"
                 dis.append(f_)
+    # which records a file has: the model of LasHeader.read_from (Gen/GenC02.v resolve_record over laspy's tables) against laspy
+    RI = _CASES.setdefault("resolve", resolve_inputs(ctx))
+    outs = common.run_model([f"resolve {i['format']} {eb_tok(eb_pairs(i['extra_dims']))} {'T' if i['has_vlr'] else 'F'} {i['point_size']}" for i in RI], name="c02")
+    for inp, o in zip(RI, outs):
+        gen_o, spec_o = o.split(" / ")
+        r = resolve_impl(inp)
+        impl_o = f"ok {r[1]} {r[2]}" if r[0] == "ok" else f"err {r[1]}"
+        ctx.case(("resolve", inp["format"], tuple(eb_pairs(inp["extra_dims"])), inp["has_vlr"], inp["point_size"]), nontrivial=True,
+                 sample={k: inp[k] for k in ("direction", "format", "has_vlr", "point_size", "n")})
+        ctx.count("record-length resolution: " + ("refused" if r[0] == "err" else "read"))
+        ctx.traces += 1
+        if gen_o != impl_o or (r[0] == "ok" and (r[3] != inp["n"] or not r[4])):
+            dis.append({"kind": "resolve: record layout of the file", "input": inp, "model": gen_o,
+                        "impl": impl_o + (f"; {r[3]} records, identical to the file's bytes: {r[4]}" if r[0] == "ok" else f" ({r[2]})")})
+        elif gen_o != spec_o:
+            dis.append({"kind": "resolve: laspy's rule differs from the specification's", "input": inp, "model": spec_o, "impl": impl_o})
     # keep one disagreement per class (the evidence file stays small), all classes
     uniq, seen = [], set()
     for d in dis:
@@ -1201,6 +1549,7 @@ def search(ctx, seeds):
     # cases named by the correspondence first
     seeded_w = [s["input"]["case"] for s in seeds if isinstance(s.get("input"), dict) and s["input"].get("direction") == "laspy-writes"]
     seeded_r = [s["input"]["case"] for s in seeds if isinstance(s.get("input"), dict) and s["input"].get("direction") == "spec-writes"]
+    seeds = [s for s in seeds if isinstance(s.get("input"), dict)]
     for c, mms in zip(seeded_w, run_laspy_writes(ref, seeded_w)):
         add("laspy-writes", c, mms)
     res, _ = run_spec_writes(ref, seeded_r)
@@ -1211,6 +1560,15 @@ def search(ctx, seeds):
     res, files = run_spec_writes(ref, Rc)
     for c, mms in zip(Rc, res):
         add("spec-writes", c, mms)
+    # record-length resolution: the inputs named by the correspondence, then the whole sweep
+    RI = _CASES.setdefault("resolve", resolve_inputs(ctx))
+    for inp in [s_["input"] for s_ in seeds if isinstance(s_.get("input"), dict) and s_["input"].get("direction") == "resolve"] + RI:
+        if "resolve" in seen:
+            break
+        obs = resolve_oracle(inp)
+        if obs:
+            seen.add("resolve")
+            failing.append({"kind": "resolve: record length of the header not honoured", "input": inp, "observed": obs})
     # the two transcriptions of the specification must build the same files (harness self-check, recorded, not a failing input)
     mf = _CACHE.get("spec_files")
     if mf is not None:
@@ -1222,6 +1580,10 @@ def search(ctx, seeds):
 
 def replay(ctx, data):
     inp = data.get("failing_input", {}).get("input")
+    if isinstance(inp, dict) and inp.get("direction") == "resolve":
+        obs = resolve_oracle(inp)
+        print(f"REPRODUCED: resolve: {obs}" if obs else "not reproduced")
+        return 1 if obs else 0
     if not isinstance(inp, dict) or "case" not in inp:
         print("nothing to replay")
         return 0
